@@ -6,7 +6,8 @@
 (* space is a table  input -> expected output  for the replay into the code. *)
 (***************************************************************************)
 EXTENDS Rainflow, TLC
-CONSTANTS Vals, MinLen, MaxLen
+CONSTANTS Vals, MinLen, MaxLen,
+          OnlyReversals     \* TRUE: only signals in which every interior sample is a reversal (strictly alternating) — longer, larger-valued reversal sequences at the same cost
 Sym1 == -1..1
 Sym2 == -2..2
 Sym3 == -3..3
@@ -15,9 +16,13 @@ VARIABLES fed, o3, o4, oF, def4
 vars == <<fed, o3, o4, oF, def4>>
 
 (* the signal grows sample by sample so that TLC's workers share the enumeration; every state is one signal *)
+Alternates(f, v) == IF Len(f) = 0 THEN TRUE
+                    ELSE IF Len(f) = 1 THEN v # f[1]
+                    ELSE (f[Len(f)] - f[Len(f) - 1]) * (v - f[Len(f)]) < 0
 Init == fed = <<>> /\ o3 = D0 /\ o4 = D0 /\ oF = F0 /\ def4 = [res |-> <<>>, cyc |-> <<>>]
 Next == /\ Len(fed) < MaxLen
         /\ \E v \in Vals :
+             /\ OnlyReversals => Alternates(fed, v)
              /\ fed' = Append(fed, v)
              /\ o3' = Process34(D0, fed', 3, FALSE)
              /\ o4' = Process34(D0, fed', 4, FALSE)
